@@ -1,12 +1,12 @@
-(* props/C04.v -- PROPERTY C04: linear (R^2/R^3) graphs are solved to the global weighted-least-squares optimum (affine edge programs regenerated from the source; Gauss-Newton algebra over lib/GNSpec.v)
+(* props/C04.v -- PROPERTY C04: linear (R^2/R^3) graphs are solved to the global weighted-least-squares optimum (affine edge programs regenerated from the source; Gauss-Newton algebra over lib/GNSpec.v; both joined for whole graphs of the regenerated programs)
    Only the statement, closed by [exact]; proofs are in proofs/C04_*.v. *)
 From Coq Require Import Reals List Arith Bool.
-From GS Require Import ExprR LinAlg GraphModel GNSpec LinearSpec C01_Rn C04_affine C04_linear C04_all.
+From GS Require Import ExprR LinAlg GraphModel GNSpec LinearSpec C01_Rn C04_affine C04_linear C07_ext C07_whole C07_wholeRn C05_grad C04_whole C04_all.
 Import ListNotations.
 Open Scope R_scope.
 
 Theorem C04 :
-  (* the R^n edge programs regenerated from the source are affine with constant Jacobians *)
+ (  (* the R^n edge programs regenerated from the source are affine with constant Jacobians *)
   (forall p1 p2 z d1 d2, length p1 = 2%nat -> length p2 = 2%nat -> length z = 2%nat -> length d1 = 2%nat -> length d2 = 2%nat ->
      err_odoR2 (R2_boxplus_fun p1 d1) (R2_boxplus_fun p2 d2) z =
      vadd (err_odoR2 p1 p2 z) (vadd (matvec (nth 0 (jac_odoR2 p1 p2 z) []) d1) (matvec (nth 1 (jac_odoR2 p1 p2 z) []) d2)) /\
@@ -28,6 +28,17 @@ Theorem C04 :
      information; uniqueness for an injective Hessian *)
   one_step_statement /\ hessian_constant_statement /\ stays_statement /\ expansion_statement /\ optimal_statement /\ unique_statement /\
   (* the hypotheses are satisfiable *)
-  (wf_graph lin_vs [lin_e] /\ solves (glen lin_vs) (spec_H lin_vs [lin_e]) (spec_b lin_vs [lin_e]) lin_dx).
+  (wf_graph lin_vs [lin_e] /\ solves (glen lin_vs) (spec_H lin_vs [lin_e]) (spec_b lin_vs [lin_e]) lin_dx)) /\
+  (* ---- the two halves joined for WHOLE R^n graphs of the regenerated programs (proofs/C04_whole.v): a graph over one point per vertex position
+          ([poses]) with R^2 / R^3 odometry and landmark edges that look their vertices up; [recsR poses gs] are the lib/GraphModel.v records built from
+          what the regenerated error / Jacobian programs return at [poses]; [move_poses vs poses dx] moves every vertex by its slice of dx through the
+          code's boxplus.  From ANY start and for ANY solution dx of the normal equations, the gradient assembled at the moved state is zero and the
+          Hessian assembled there is the Hessian of the start (so the next step is zero for an injective Hessian, statements above). ---- *)
+  (forall vs poses gs dx,
+     length poses = length vs -> List.Forall (fun v => (0 < v_dim v)%nat) vs -> List.Forall (okgR vs poses) gs ->
+     solves (glen vs) (spec_H vs (recsR poses gs)) (spec_b vs (recsR poses gs)) dx ->
+     (forall r, (r < glen vs)%nat -> spec_b vs (recsR (move_poses vs poses dx) gs) r = 0) /\
+     (forall r c, spec_H vs (recsR (move_poses vs poses dx) gs) r c = spec_H vs (recsR poses gs) r c)) /\
+  (length exR_poses = length exR_vs /\ List.Forall (fun v => (0 < v_dim v)%nat) exR_vs /\ List.Forall (okgR exR_vs exR_poses) exR_gs).
 Proof. exact C04_all. Qed.
 Print Assumptions C04.
